@@ -100,8 +100,12 @@ def lmi_dual_probe(ctx):
 
 
 def run(ctx):
+    run_main(ctx)
     lmi_dual_probe(ctx)
     C.run_difftest(ctx, 'test_lmi.py', ctx.n(60, 1000), 'gcp.Model.do_math(primal=False) with LMI blocks; le_to_rc LMI rows')
+
+
+def run_main(ctx):
     n_cases = ctx.n(150, 2500)
     n_search = ctx.n(30, 400)
     cases = []
